@@ -1000,8 +1000,8 @@ R.mutant("sqlite-target-where-bound", SL,
          sub("                whereclause_kw.update(\n                    include_table=False,\n                    use_schema=False,\n                    literal_execute=True,\n                )\n",
              "                whereclause_kw.update(\n                    include_table=False,\n                    use_schema=False,\n                )\n"), "C56-R4")
 R.mutant("pg-target-columns-qualified", PG,
-         sub("                    else self.process(c, include_table=False, use_schema=False)\n                )\n                for c in clause.inferred_target_elements\n            )\n            if clause.inferred_target_whereclause is not None:\n                whereclause_kw = dict(kw)\n                whereclause_kw.update(include_table=False, use_schema=False)\n",
-             "                    else self.process(c, use_schema=False)\n                )\n                for c in clause.inferred_target_elements\n            )\n            if clause.inferred_target_whereclause is not None:\n                whereclause_kw = dict(kw)\n                whereclause_kw.update(include_table=False, use_schema=False)\n"),
+         sub("            element_kw = dict(kw)\n            element_kw.update(include_table=False, use_schema=False)\n",
+             "            element_kw = dict(kw)\n            element_kw.update(use_schema=False)\n"),
          "C56-R4")
 R.mutant("sqlite-excluded-alias-renamed", SLD, sub('return alias(self.table, name="excluded").columns', 'return alias(self.table, name="inserted").columns'), "C56-R4")
 R.mutant("pg-excluded-alias-renamed", PGD, sub('return alias(self.table, name="excluded").columns', 'return alias(self.table, name="new").columns'), "C56-R4")
@@ -1041,3 +1041,169 @@ R.mutant("benign-mysql-debug-log-and-rename", MY,
 R.mutant("benign-mysql-ctor-reordered", MYD,
          sub("            self._parameter_ordering = [key for key, value in update]\n            update = dict(update)\n",
              "            ordering = [k for k, _ in update]\n            update = dict(update)\n            self._parameter_ordering = list(ordering)\n"), None)
+R.mutant('benign-rfI_16-sqlite-upsert', SL,
+         sub('        return self._generate_generic_binary(binary, " NOT REGEXP ", **kw)\n'
+             '\n'
+             '    def _on_conflict_target(self, clause, **kw):\n'
+             '        if clause.inferred_target_elements is not None:\n'
+             '            element_kw = dict(kw)\n'
+             '            element_kw.update(\n'
+             '                include_table=False, use_schema=False, literal_execute=True\n'
+             '            )\n'
+             '            target_text = "(%s)" % ", ".join(\n'
+             '                (\n'
+             '                    self.preparer.quote(c)\n'
+             '                    if isinstance(c, str)\n'
+             '                    else self.process(c, **element_kw)\n'
+             '                )\n'
+             '                for c in clause.inferred_target_elements\n'
+             '            )\n'
+             '            if clause.inferred_target_whereclause is not None:\n'
+             '                whereclause_kw = dict(kw)\n'
+             '                whereclause_kw.update(\n'
+             '                    include_table=False,\n'
+             '                    use_schema=False,\n'
+             '                    literal_execute=True,\n'
+             '                )\n'
+             '                target_text += " WHERE %s" % self.process(\n'
+             '                    clause.inferred_target_whereclause,\n'
+             '                    **whereclause_kw,\n'
+             '                )\n'
+             '\n'
+             '        else:\n'
+             '            target_text = ""\n',
+        '        return self._generate_generic_binary(binary, " NOT REGEXP ", **kw)\n'
+             '\n'
+             '    def _on_conflict_target(self, clause, **kw):\n'
+             '        if clause.inferred_target_elements is None:\n'
+             '            # ON CONFLICT with no conflict target\n'
+             '            return ""\n'
+             '\n'
+             '        element_kw = dict(kw)\n'
+             '        element_kw.update(\n'
+             '            include_table=False, use_schema=False, literal_execute=True\n'
+             '        )\n'
+             '        target_elements = []\n'
+             '        for c in clause.inferred_target_elements:\n'
+             '            if isinstance(c, str):\n'
+             '                target_elements.append(self.preparer.quote(c))\n'
+             '            else:\n'
+             '                target_elements.append(self.process(c, **element_kw))\n'
+             '        target_text = "(%s)" % ", ".join(target_elements)\n'
+             '\n'
+             '        if clause.inferred_target_whereclause is not None:\n'
+             '            whereclause_kw = dict(kw)\n'
+             '            whereclause_kw.update(\n'
+             '                include_table=False,\n'
+             '                use_schema=False,\n'
+             '                literal_execute=True,\n'
+             '            )\n'
+             '            target_text += " WHERE %s" % self.process(\n'
+             '                clause.inferred_target_whereclause,\n'
+             '                **whereclause_kw,\n'
+             '            )\n'), None)
+R.mutant('benign-rfI_17-pg-quote-alias-fstring', PG, chain(
+    sub('        for c in cols:\n'
+             '            col_key = c.key\n'
+             '\n'
+             '            if col_key in set_parameters:\n'
+             '                value = set_parameters.pop(col_key)\n'
+             '            elif c in set_parameters:\n'
+             '                value = set_parameters.pop(c)\n',
+        '        quote = self.preparer.quote\n'
+             '        for column in cols:\n'
+             '            col_key = column.key\n'
+             '\n'
+             '            # parameters may be keyed by column key or by Column object\n'
+             '            if col_key in set_parameters:\n'
+             '                value = set_parameters.pop(col_key)\n'
+             '            elif column in set_parameters:\n'
+             '                value = set_parameters.pop(column)\n'),
+    sub('                value = value._with_binary_element_type(c.type)\n'
+             '\n'
+             '            value_text = self.process(\n'
+             '                value.self_group(), is_upsert_set=True, **set_kw\n'
+             '            )\n'
+             '\n'
+             '            key_text = self.preparer.quote(c.name)\n'
+             '            action_set_ops.append("%s = %s" % (key_text, value_text))\n',
+        '                value = value._with_binary_element_type(column.type)\n'
+             '\n'
+             '            value_text = self.process(\n'
+             '                value.self_group(), is_upsert_set=True, **set_kw\n'
+             '            )\n'
+             '\n'
+             '            key_text = quote(column.name)\n'
+             '            action_set_ops.append(f"{key_text} = {value_text}")\n'),
+    sub('                )\n'
+             '            )\n'
+             '            for k, v in set_parameters.items():\n'
+             '                key_text = (\n'
+             '                    self.preparer.quote(k)\n'
+             '                    if isinstance(k, str)\n'
+             '                    else self.process(k, use_schema=False)\n'
+             '                )\n'
+             '                value_text = self.process(\n'
+             '                    coercions.expect(roles.ExpressionElementRole, v),\n'
+             '                    is_upsert_set=True,\n'
+             '                    **set_kw,\n'
+             '                )\n'
+             '                action_set_ops.append("%s = %s" % (key_text, value_text))\n',
+        '                )\n'
+             '            )\n'
+             '            for k, v in set_parameters.items():\n'
+             '                if isinstance(k, str):\n'
+             '                    key_text = quote(k)\n'
+             '                else:\n'
+             '                    key_text = self.process(k, use_schema=False)\n'
+             '                value_text = self.process(\n'
+             '                    coercions.expect(roles.ExpressionElementRole, v),\n'
+             '                    is_upsert_set=True,\n'
+             '                    **set_kw,\n'
+             '                )\n'
+             '                action_set_ops.append(f"{key_text} = {value_text}")\n')), None)
+R.mutant('benign-rfI_18-mysql-loop-with-continue', MY, chain(
+    sub('        for column in (col for col in cols if col.key in on_duplicate_update):\n',
+        '        for column in cols:\n'
+             '            if column.key not in on_duplicate_update:\n'
+             '                continue\n'
+             '\n'),
+    sub('        non_matching = set(on_duplicate_update) - {c.key for c in cols}\n',
+        '        table_col_keys = {c.key for c in cols}\n'
+             '        non_matching = set(on_duplicate_update).difference(table_col_keys)\n'),
+    sub('                )\n'
+             '            )\n'
+             '\n'
+             '        if requires_mysql8_alias:\n'
+             '            return (\n'
+             '                f"AS {_on_dup_alias_name} "\n'
+             '                f"ON DUPLICATE KEY UPDATE {\', \'.join(clauses)}"\n'
+             '            )\n'
+             '        else:\n'
+             '            return f"ON DUPLICATE KEY UPDATE {\', \'.join(clauses)}"\n',
+        '                )\n'
+             '            )\n'
+             '\n'
+             '        update_text = f"ON DUPLICATE KEY UPDATE {\', \'.join(clauses)}"\n'
+             '        if not requires_mysql8_alias:\n'
+             '            return update_text\n'
+             '\n'
+             '        # MySQL 8 style; refer to the inserted row using a row alias\n'
+             '        return f"AS {_on_dup_alias_name} {update_text}"\n')), None)
+# further benign variants of the same families (rob-I)
+R.mutant("benign-sqlite-bound-method-aliases", SL, chain(
+    sub("        set_kw = dict(kw)\n        set_kw.update(use_schema=False)\n        for c in cols:\n            col_key = c.key\n\n            if col_key in set_parameters:\n                value = set_parameters.pop(col_key)\n            elif c in set_parameters:\n                value = set_parameters.pop(c)\n            else:\n                continue\n\n            if (\n                isinstance(value, elements.BindParameter)\n                and value.type._isnull\n            ):\n                value = value._with_binary_element_type(c.type)\n\n            value_text = self.process(\n                value.self_group(), is_upsert_set=True, **set_kw\n            )\n\n            key_text = self.preparer.quote(c.name)\n            action_set_ops.append(\"%s = %s\" % (key_text, value_text))\n",
+        "        set_kw = {**kw, \"use_schema\": False}\n        quote_name = self.preparer.quote\n        render = self.process\n        for table_col in cols:\n            col_key = table_col.key\n\n            if col_key in set_parameters:\n                value = set_parameters.pop(col_key)\n            elif table_col in set_parameters:\n                value = set_parameters.pop(table_col)\n            else:\n                continue\n\n            if (\n                isinstance(value, elements.BindParameter)\n                and value.type._isnull\n            ):\n                value = value._with_binary_element_type(table_col.type)\n\n            value_text = render(\n                value.self_group(), is_upsert_set=True, **set_kw\n            )\n\n            action_set_ops.append(\n                f\"{quote_name(table_col.name)} = {value_text}\"\n            )\n")), None)
+R.mutant("benign-sqlite-target-early-return", SL,
+         sub("        if clause.inferred_target_elements is not None:\n            element_kw = dict(kw)\n            element_kw.update(\n                include_table=False, use_schema=False, literal_execute=True\n            )\n            target_text = \"(%s)\" % \", \".join(\n                (\n                    self.preparer.quote(c)\n                    if isinstance(c, str)\n                    else self.process(c, **element_kw)\n                )\n                for c in clause.inferred_target_elements\n            )\n            if clause.inferred_target_whereclause is not None:\n                whereclause_kw = dict(kw)\n                whereclause_kw.update(\n                    include_table=False,\n                    use_schema=False,\n                    literal_execute=True,\n                )\n                target_text += \" WHERE %s\" % self.process(\n                    clause.inferred_target_whereclause,\n                    **whereclause_kw,\n                )\n\n        else:\n            target_text = \"\"\n\n        return target_text\n",
+             "        if clause.inferred_target_elements is None:\n            return \"\"\n\n        inline_kw = {\n            **kw,\n            \"include_table\": False,\n            \"use_schema\": False,\n            \"literal_execute\": True,\n        }\n        rendered = []\n        for c in clause.inferred_target_elements:\n            if isinstance(c, str):\n                rendered.append(self.preparer.quote(c))\n            else:\n                rendered.append(self.process(c, **inline_kw))\n        target_text = \"(%s)\" % \", \".join(rendered)\n        if clause.inferred_target_whereclause is None:\n            return target_text\n        where_text = self.process(\n            clause.inferred_target_whereclause, **inline_kw\n        )\n        return f\"{target_text} WHERE {where_text}\"\n"), None)
+R.mutant("benign-mysql-kw-dict-display", MY,
+         sub("        set_kw = dict(kw)\n        set_kw.update(use_schema=False, is_upsert_set=True)\n\n        # traverses through all table columns to preserve table column order\n",
+             "        set_kw = {**kw, \"use_schema\": False, \"is_upsert_set\": True}\n\n        # traverses through all table columns to preserve table column order\n"), None)
+# the alias forms must still be judged
+R.mutant("sqlite-quote-alias-renders-column-key", SL, chain(
+    sub("            key_text = self.preparer.quote(c.name)\n            action_set_ops.append(\"%s = %s\" % (key_text, value_text))\n\n        # check for names that don't match columns\n        if set_parameters:\n            util.warn(\n                \"Additional column names not matching \"\n                \"any column keys in table '%s': %s\"\n                % (\n                    self.current_executable.table.name,\n                    (\", \".join(\"'%s'\" % c for c in set_parameters)),\n                )\n            )\n            for k, v in set_parameters.items():\n                key_text = (\n                    self.preparer.quote(k)\n                    if isinstance(k, str)\n                    else self.process(k, **set_kw)\n                )\n",
+        "            quote = self.preparer.quote\n            key_text = quote(c.key)\n            action_set_ops.append(\"%s = %s\" % (key_text, value_text))\n\n        # check for names that don't match columns\n        if set_parameters:\n            util.warn(\n                \"Additional column names not matching \"\n                \"any column keys in table '%s': %s\"\n                % (\n                    self.current_executable.table.name,\n                    (\", \".join(\"'%s'\" % c for c in set_parameters)),\n                )\n            )\n            for k, v in set_parameters.items():\n                key_text = (\n                    self.preparer.quote(k)\n                    if isinstance(k, str)\n                    else self.process(k, **set_kw)\n                )\n")), "C56-R2")
+R.mutant("sqlite-process-alias-drops-kw", SL,
+         sub("            value_text = self.process(\n                value.self_group(), is_upsert_set=True, **set_kw\n            )\n\n            key_text = self.preparer.quote(c.name)\n            action_set_ops.append(\"%s = %s\" % (key_text, value_text))\n\n        # check for names that don't match columns\n        if set_parameters:\n            util.warn(\n                \"Additional column names not matching \"\n                \"any column keys in table '%s': %s\"\n                % (\n                    self.current_executable.table.name,\n                    (\", \".join(\"'%s'\" % c for c in set_parameters)),\n                )\n            )\n            for k, v in set_parameters.items():\n                key_text = (\n                    self.preparer.quote(k)\n                    if isinstance(k, str)\n                    else self.process(k, **set_kw)\n                )\n",
+             "            render = self.process\n            value_text = render(\n                value.self_group(), is_upsert_set=True, use_schema=False\n            )\n\n            key_text = self.preparer.quote(c.name)\n            action_set_ops.append(\"%s = %s\" % (key_text, value_text))\n\n        # check for names that don't match columns\n        if set_parameters:\n            util.warn(\n                \"Additional column names not matching \"\n                \"any column keys in table '%s': %s\"\n                % (\n                    self.current_executable.table.name,\n                    (\", \".join(\"'%s'\" % c for c in set_parameters)),\n                )\n            )\n            for k, v in set_parameters.items():\n                key_text = (\n                    self.preparer.quote(k)\n                    if isinstance(k, str)\n                    else self.process(k, **set_kw)\n                )\n"), "C56-R3")
